@@ -196,7 +196,10 @@ func normalizeStatement(
 
 	normalizeChildren := func(children []*sysl.Statement, parentIndex []int) error {
 		for i, child := range children {
-			err := normalizeStatement(ctx, s, app, ep, child, append(parentIndex, i))
+			// each child gets its own index slice: appending to the shared parent slice would let
+			// siblings overwrite each other's last element once it has spare capacity
+			childIndex := append(append(make([]int, 0, len(parentIndex)+1), parentIndex...), i)
+			err := normalizeStatement(ctx, s, app, ep, child, childIndex)
 			if err != nil {
 				return err
 			}
